@@ -254,6 +254,15 @@ def runOp (op : String) (j : Json) : P (Json × Json) := do
       let a ← arrOf p
       pure (← strOf a[0]!, ← strOf a[1]!, ← listOf plistOfJson a[2]!)) (← fld j "cols")
     pure (resJson (seriesToJson <$> packLists index cols (← boolOf (fldD j "validate" (.bool true)))), .null)
+  | "relist" => do
+    let s ← seriesOfJson (← fld j "series")
+    let empt : Table Cell := s.col.ty.map fun p => (p.1, [])
+    pure (resJson (seriesToJson <$> s.relist),
+          resJson (pure ((seriesSpecToJson s.index) { ty := s.col.ty, rows := s.col.rows.map fun r => some (r.getD empt) })))
+  | "repackElements" => do
+    let s ← seriesOfJson (← fld j "series")
+    pure (resJson (seriesToJson <$> s.repackElements),
+          resJson (pure ((seriesSpecToJson s.index) { ty := s.col.ty, rows := s.col.rows })))
   | "packSeq" => do
     let index ← listOf labelOfJson (← fld j "index")
     let ty ← tyOfJson (← fld j "ty")
